@@ -1,5 +1,6 @@
 import Cell2v.Driver.Util
 import Cell2v.Model.Session
+import Cell2v.Model.Framing
 /-!
 Model driver for C05.
 
@@ -24,8 +25,11 @@ Observation: one record per connection, `;`-separated, then ` | live=<ids> g=<go
   cK:st=<1-4>,rd=<w|h|m|x>,wr=<p|->,cc=<conn.Close calls>,nw=<writes>,hw=<handshake responses>,
      np=<pushes handed to it by the owner's PushMsg>,ev=<A|M<mid>|R …; nothing is recorded after R>,ow=<a<id>|m<mid>|n<mid>|r<h><c> …>[,r=<ok|closed>]
 
-tcp smoke engine (real TCPAcceptor, real time): `reset-tcp pk=<pk,..> tail=<hex>` = one whole connection;
-observation `ev=..,ow=<a|m<mid>|r11 …>,eof=<server closed the socket>,g=<goroutines left>`.
+tcp smoke engine (real TCPAcceptor, real time): `reset-tcp pk=<pk,..> tail=<hex> [lens=<body lengths> cut=<byte offsets>]`
+= one whole connection whose byte stream arrives in the pieces given by `cut`; the model frames the same stream
+(`Framing.framesOf`: real headers and tail, body bytes abstracted) and feeds the messages to the session model;
+`b<mid>` = a decodable message with a body larger than the socket buffers; `reset-wsc pk=.. tail=.. [frag=1] [glue=1]` =
+the same through the real WSAcceptor (one packet per websocket message, `Framing.wsNext`); observation `ev=..,ow=<a|m<mid>|r11 …>,eof=<server closed the socket>,g=<goroutines left>`.
 
 `spec` evaluates the property on the implementation's observations only.
 -/
@@ -135,7 +139,7 @@ def parsePkt (w : String) : Option Pkt :=
   else if w == "ack" then some .ack
   else if w == "hb" then some .hb
   else if w == "ot" then some .other
-  else if w.startsWith "d" then ((w.drop 1).toString.toNat?).map (fun n => Pkt.data true n)
+  else if w.startsWith "d" || w.startsWith "b" then ((w.drop 1).toString.toNat?).map (fun n => Pkt.data true n)
   else if w.startsWith "x" then ((w.drop 1).toString.toNat?).map (fun n => Pkt.data false n)
   else none
 
@@ -207,22 +211,31 @@ def collect (d : D) : D :=
 
 def settleAll (d : D) : D := collect { d with conns := d.conns.map settleC }
 
-/-- `ClientSessions` on the owner goroutine, one posted task -/
+/-- `ClientSessions` on the owner goroutine, one posted task (the sessions map is `Session.Own`: every lookup is by the
+id the session holds, `session.GetId()`) -/
 def ownerTask (d : D) (k : Nat) (e : Ev) : D :=
   match findConn d k with
   | none => d
   | some c =>
+    let o : Own := { counter := d.counter, live := d.live }
     match e with
     | .add =>
-      let (id, cnt) := allocId M32 d.counter
-      putConn { d with counter := cnt, live := (id, k) :: d.live.filter (·.1 != id) } { c with id := id, ow := c.ow ++ [.a id] }
+      let r := o.add M32 k
+      putConn { d with counter := r.1.counter, live := r.1.live } { c with id := r.2, ow := c.ow ++ [.a r.2] }
     | .msg mid =>
-      -- findSession(session.GetId()): the entry must be this connection's
-      if d.live.any (fun p => p.1 == c.id && p.2 == k) then putConn d { c with ow := c.ow ++ [.m mid] } else d
+      -- findSession(session.GetId()): dropped when nothing is registered under the id
+      match o.lookup c.id with
+      | some _ => putConn d { c with ow := c.ow ++ [.m mid] }
+      | none => d
     | .remove =>
-      if d.live.any (fun p => p.1 == c.id && p.2 == k) then
-        putConn { d with live := d.live.filter (·.1 != c.id) } { c with ow := c.ow ++ [.r] }
-      else d
+      -- the entry found under the id is deleted; the handler and the close callbacks get ITS FrontSession
+      match o.remove c.id with
+      | (o', some k') =>
+        let d := { d with live := o'.live }
+        (match findConn d k' with
+         | some c' => putConn d { c' with ow := c'.ow ++ [.r] }
+         | none => d)
+      | (_, none) => d
 
 def drain (d : D) : D :=
   let q := d.queue
@@ -338,7 +351,7 @@ def stepCore (d : D) (line : String) : D × String :=
       else if w.startsWith "u" then ((w.drop 1).toString.toNat?).map (fun n => 3000000000 + n)
       else none
     if ids.any (·.isNone) then (d, "none") else
-    let targets : List Nat := ids.filterMap fun o => o.bind fun id => (d.live.find? (·.1 == id)).map (·.2)
+    let targets : List Nat := ({ counter := d.counter, live := d.live } : Own).pushTargets (ids.filterMap id)
     -- a push that finds the queue full would park the owner: such an op is not run
     if targets.any (fun k => match findConn d k with
         | some c => c.s.status != .closed && c.s.closed == false && c.s.sendq + (targets.filter (· == k)).length > sendCap
@@ -372,11 +385,38 @@ def stepCore (d : D) (line : String) : D × String :=
 /-- accept burst through `StartAcceptor`: every connection is served by exactly one session and ends with one remove -/
 def burstObs (n : Nat) : String := s!"n={n},served1={n},adds={n},removes={n},closes={n}"
 
-/-- tcp smoke script: one packet per frame (TCP framing), then the read error that ends every script -/
-def tcpScript (ws : List String) : String :=
-  let pks := match kv ws "pk" with
-    | some v => if v == "" then [] else v.splitOn ","
-    | none => []
+/-- packet type byte of a packet token -/
+def typOfTok (w : String) : Nat :=
+  if w.startsWith "hs" then 1 else if w == "ack" then 2 else if w == "hb" then 3 else if w == "ot" then 5 else 4
+
+/-- the messages the framing hands to the read loop, as packet tokens: the i-th message must be the i-th packet of the
+script; what the tail adds can only be an empty heartbeat / ack / kick packet -/
+def framedToks : List (List Nat) → List (String × List Nat) → Option (List String)
+  | [], _ => some []
+  | f :: fr, (w, p) :: pr => if f == p then (framedToks fr pr).map (w :: ·) else none
+  | f :: fr, [] =>
+    let w := if f == [3, 0, 0, 0] then some "hb" else if f == [2, 0, 0, 0] then some "ack" else if f == [5, 0, 0, 0] then some "ot" else none
+    match w with
+    | some w => (framedToks fr []).map (w :: ·)
+    | none => none
+
+/-- `GetNextMessage` over the byte stream of the op, cut as the client sent it -/
+def tcpFramed (ws : List String) (pks : List String) : Option (List String) :=
+  match kv ws "lens" with
+  | none => some pks           -- the op without stream description: one packet per message
+  | some lv =>
+    let lens := if lv == "" then [] else (lv.splitOn ",").filterMap String.toNat?
+    if lens.length != pks.length then none else
+    let pkts := (pks.zip lens).map fun p => (p.1, Framing.encode (typOfTok p.1) (List.replicate p.2 0))
+    let tail := ((kv ws "tail").bind bytesOfHex).getD []
+    let bytes := (pkts.map (·.2)).flatten ++ tail
+    let cuts := match kv ws "cut" with
+      | some v => (v.splitOn ",").filterMap String.toNat?
+      | none => []
+    framedToks (Framing.framesOf (pks.length + 8) (Framing.cutAt bytes 0 cuts)).1 pkts
+
+/-- one whole connection: the framed messages one by one, then the read error / EOF that ends every stream -/
+def connScript (pks : List String) : String :=
   let d0 : D := {}
   let d := (stepCore d0 "open c=1").1
   let d := pks.foldl (fun d pk => (stepCore (stepCore d s!"in c=1 it=f:{pk}").1 "rd c=1").1) d
@@ -387,9 +427,47 @@ def tcpScript (ws : List String) : String :=
     s!"ev={String.join ((evShown c.s.posted).map showEv)},ow={String.join (c.ow.map showOwNoId)},eof={c.s.connCloses},g={goroutines d}"
   | none => "bad-op"
 
+def pksOf (ws : List String) : List String :=
+  match kv ws "pk" with
+  | some v => if v == "" then [] else v.splitOn ","
+  | none => []
+
+/-- tcp script: TCP framing of the stream, then the session -/
+def tcpScript (ws : List String) : String :=
+  match tcpFramed ws (pksOf ws) with
+  | none => "bad-op"
+  | some pks => connScript pks
+
+/-- the messages of a result list up to the first error -/
+def msgsUntilErr : List Framing.Next → List (List Nat)
+  | .msg b :: r => b :: msgsUntilErr r
+  | _ => []
+
+/-- websocket script: one packet per message (`glue=1`: the last two packets in one message), a message with the tail bytes;
+`WSConn.GetNextMessage` on each (body bytes abstracted to a nominal length), then the session -/
+def wscScript (ws : List String) : String :=
+  let pks := pksOf ws
+  let nominal (w : String) : Nat := if w.startsWith "hs" then 10 else if w == "ack" || w == "hb" || w == "ot" then 0 else 7
+  let pkts := pks.map fun w => (w, Framing.encode (typOfTok w) (List.replicate (nominal w) 0))
+  let glue := kv ws "glue" == some "1"
+  if glue && pkts.length < 2 then "bad-op" else
+  let bodies := pkts.map (·.2)
+  let msgs := if glue then bodies.take (bodies.length - 2) ++ [(bodies.drop (bodies.length - 2)).flatten] else bodies
+  let tail := ((kv ws "tail").bind bytesOfHex).getD []
+  let msgs := if tail.isEmpty then msgs else msgs ++ [tail]
+  match framedToks (msgsUntilErr (msgs.map Framing.wsNext)) pkts with
+  | none => "bad-op"
+  | some toks => connScript toks
+
+/-- `n` sessions, each ended by several independent close causes at once: whatever the interleaving (close_once,
+every_ending_closes) every session is removed once, its conn closed once, nothing panics, every goroutine returns -/
+def raceObs (n : Nat) : String := s!"n={n},creates={n},removed1={n},closed1={n},thrown=0,left=0"
+
 def step (d : D) (line : String) : D × String :=
   let ws := words line
   if ws.head? == some "reset-tcp" then ({}, tcpScript ws)
+  else if ws.head? == some "reset-wsc" then ({}, wscScript ws)
+  else if ws.head? == some "reset-race" then ({}, raceObs ((kvNat ws "n").getD 0))
   else if ws.head? == some "reset-burst" then ({}, burstObs ((kvNat ws "n").getD 0))
   -- acceptor smoke cases: every accepted connection is handed over; closing a websocket session whose writer is stalled works
   else if ws.head? == some "reset-accept" then ({}, s!"handed={(kvNat ws "n").getD 0},of={(kvNat ws "n").getD 0}")
@@ -412,6 +490,8 @@ structure SpConn where
   lastGrant : Nat := 0       -- virtual time of the latest reader grant (the heartbeat stamp is never later)
   cbp : String := ""         -- scripted panicking close callbacks
   filled : Bool := false     -- its send queue was filled up: the heartbeat goroutine may be parked in its send
+  pend : List Nat := []      -- message ids of the frame the reader holds that must all be posted if nothing closes the session first
+  must : List Nat := []      -- message ids that must have been posted (lower bound of the message clause)
 
 structure Sp where
   conns : List SpConn := []
@@ -475,6 +555,8 @@ def checkConn (sp : Sp) (atEnd : Bool) (drained : Bool) (k : Nat) (fs : List Str
   else if ow.any (·.startsWith "n") then some s!"C05/message-after-remove connection {k}: handler invoked without a session: {ow}"
   else if afterR.any (fun t => t.startsWith "m" || t.startsWith "n") then some s!"C05/message-after-remove connection {k}: {ow}"
   else if na == 0 && (owM.length > 0 || nr > 0) then some s!"C05/session-add-missing-or-twice connection {k}: owner saw {ow} without an add"
+  else if !isSubseq (((sp.conns.find? (·.k == k)).map (·.must)).getD []) evM then
+    some s!"C05/message-lost connection {k}: {((sp.conns.find? (·.k == k)).map (·.must)).getD []} arrived in frames of decodable data on the Working session and the reader was back for more before anything closed the session; posted {evM}"
   else if !isSubseq evM sent then some s!"C05/message-order connection {k}: posted {evM}, arrived {sent}"
   else if !isSubseq owM evM then some s!"C05/message-order connection {k}: owner saw {owM}, posted {evM}"
   else if drained && (na != 1 || owM != evM) then
@@ -498,6 +580,19 @@ def checkConn (sp : Sp) (atEnd : Bool) (drained : Bool) (k : Nat) (fs : List Str
       if clash then some s!"C05/live-id-collision connection {k}: id {id} is also the id of another live session" else none
     | none => none
 
+/-- messages the owner MUST see on a real-socket connection that nothing but the client ends: after a completed
+handshake (`hs1`, `ack`) every decodable data packet up to the first malformed packet / renewed handshake -/
+def mustDeliver (pks : List String) : List Nat :=
+  let rec go : List String → List Nat
+    | [] => []
+    | w :: r =>
+      if w.startsWith "d" || w.startsWith "b" then numOf w :: go r
+      else if w == "hb" || w == "ot" || w == "ack" then go r
+      else []
+  match pks with
+  | "hs1" :: "ack" :: r => go r
+  | _ => []
+
 /-- the property on one whole real-socket connection (tcp smoke engine) -/
 def specTcp (ws : List String) (obs : String) : String :=
   let fs := obs.splitOn ","
@@ -506,12 +601,17 @@ def specTcp (ws : List String) (obs : String) : String :=
   let sent := match kv ws "pk" with
     | some v => midsOfPkts ((v.splitOn ",").filterMap parsePkt)
     | none => []
+  -- websocket, glue=1: the last two packets share a message, which is rejected: they need not be delivered
+  let pkToks := ((kv ws "pk").getD "").splitOn ","
+  let pkToks := if kv ws "glue" == some "1" then pkToks.take (pkToks.length - 2) else pkToks
   let evM := (ev.filter (·.startsWith "M")).map numOf
   let owM := (ow.filter (·.startsWith "m")).map numOf
   if (ev.filter (· == "A")).length != 1 || ev.head? != some "A" then s!"VIOLATION C05/session-add-missing-or-twice tcp connection: {ev}"
   else if (ev.filter (· == "R")).length > 1 || (ow.filter (·.startsWith "r")).length > 1 then s!"VIOLATION C05/session-remove-twice tcp connection: {ev} {ow}"
   else if ev.getLast? != some "R" then s!"VIOLATION C05/no-session-remove tcp connection ended (client closed / malformed input) but OnSessionClose was never called: {ev}"
   else if ow.any (·.startsWith "n") then s!"VIOLATION C05/message-after-remove tcp connection: {ow}"
+  else if !isSubseq (mustDeliver pkToks) owM then
+    s!"VIOLATION C05/message-lost tcp connection: the client sent {mustDeliver pkToks} complete and in order after the handshake (stream pieces cut at [{(kv ws "cut").getD ""}]), the owner saw {ow}"
   else if ow != ["a"] ++ (owM.map fun m => s!"m{m}") ++ ["r11"] then s!"VIOLATION C05/owner-sequence tcp connection: owner saw {ow}"
   else if !isSubseq evM sent || owM != evM then s!"VIOLATION C05/message-order tcp connection: arrived {sent}, posted {evM}, owner saw {owM}"
   else if kv fs "eof" != some "1" then "VIOLATION C05/socket-not-closed tcp connection: the server never closed the socket"
@@ -528,6 +628,18 @@ def specBurst (ws : List String) (obs : String) : String :=
   else if kvNat fs "closes" != some n then s!"VIOLATION C05/conn-close-count accept burst of {n} connections: {obs}"
   else "ok"
 
+/-- simultaneous independent close causes on `n` fresh sessions -/
+def specRace (ws : List String) (obs : String) : String :=
+  let fs := obs.splitOn ","
+  let n := (kvNat ws "n").getD 0
+  let what := s!"{n} sessions, each closed by {(kvNat ws "k").getD 0} Close() calls + client EOF + write failure at the same instant ({if kv ws "hold" == some "1" then "arriving while Close is running" else "released together"})"
+  if kvNat fs "thrown" != some 0 then s!"VIOLATION C05/close-panic {what}: Close() panicked: {obs}"
+  else if kvNat fs "creates" != some n then s!"VIOLATION C05/session-add-missing-or-twice {what}: {obs}"
+  else if kvNat fs "removed1" != some n then s!"VIOLATION C05/session-remove-twice {what}: not every session got exactly one OnSessionClose: {obs}"
+  else if kvNat fs "closed1" != some n then s!"VIOLATION C05/conn-close-count {what}: not every conn was closed exactly once: {obs}"
+  else if kvNat fs "left" != some 0 then s!"VIOLATION C05/goroutine-leak {what}: {obs}"
+  else "ok"
+
 def specStep (sp : Sp) (line : String) : Sp × String :=
   -- the observation is everything after the first tab (a crash dump contains tabs)
   match (match line.splitOn "\t" with
@@ -536,8 +648,9 @@ def specStep (sp : Sp) (line : String) : Sp × String :=
   | [op, obs] =>
     let ws := words op
     if (obs.splitOn "panic").length > 1 || obs.startsWith "<no-observation" then (sp, "VIOLATION C05/crash " ++ op ++ " -> " ++ obs) else
-    if ws.head? == some "reset-tcp" then ({}, if obs == "bad-op" then "ok" else specTcp ws obs) else
+    if ws.head? == some "reset-tcp" || ws.head? == some "reset-wsc" then ({}, if obs == "bad-op" then "ok" else specTcp ws obs) else
     if ws.head? == some "reset-burst" then ({}, if obs == "bad-op" then "ok" else specBurst ws obs) else
+    if ws.head? == some "reset-race" then ({}, if obs == "bad-op" then "ok" else specRace ws obs) else
     if ws.head? == some "reset-accept" then
       let fs := obs.splitOn ","
       ({}, if obs == "bad-op" || kvNat fs "handed" == kvNat ws "n" then "ok"
@@ -613,6 +726,31 @@ def specStep (sp : Sp) (line : String) : Sp × String :=
           if np == oldNp + want then none
           else some s!"C05/push-delivery connection {k}: {op}: the owner handed it {np - oldNp} pushes, {want} expected (registered ids of the push get it once each, whatever else is in the id list)"
       let sp := { sp with prev := cur, prevLive := liveIds }
+      -- lower bound: a frame of packets that neither end the loop nor leave Working (decodable data, hb, ack, kick packet),
+      -- handed to the reader of a Working session; when the reader is back waiting and nothing has closed the session
+      -- meanwhile, every message of it must have been posted
+      let benignTok (w : String) : Bool := w.startsWith "d" || w.startsWith "b" || w == "hb" || w == "ot" || w == "ack"
+      let inFrame : Option (List Nat) :=
+        if ws.head? == some "in" then
+          match kv ws "it" with
+          | some v => if v.startsWith "f:" && (v.drop 2).toString != "" && (((v.drop 2).toString.splitOn ",").all benignTok) then
+              some ((((v.drop 2).toString.splitOn ",").filter (fun w => w.startsWith "d" || w.startsWith "b")).map numOf) else none
+          | none => none
+        else none
+      let upd (c : SpConn) : SpConn :=
+        match rs.find? (fun q => q.1 == c.k) with
+        | none => c
+        | some p =>
+          let hasR := (tokens ((kv p.2 "ev").getD "")).any (· == "R")
+          let rd := (kv p.2 "rd").getD ""
+          let c := match inFrame with
+            | some mids => if c.k == kOp && kvNat p.2 "st" == some 3 && !hasR && rd == "h" then { c with pend := mids } else c
+            | none => c
+          if c.pend.isEmpty then c
+          else if hasR || rd == "x" then { c with pend := [] }
+          else if rd == "w" then { c with must := c.must ++ c.pend, pend := [] }
+          else c
+      let sp := { sp with conns := sp.conns.map upd }
       match rs.findSome? (fun p => checkConn sp atEnd (atEnd || ws.head? == some "drain") p.1 p.2 allOw) with
       | some v => (sp, "VIOLATION " ++ v)
       | none =>
